@@ -17,6 +17,7 @@ let () =
                 | "wal" -> M_wal.handle cmd args
                 | "raft" -> M_raft.handle cmd args
                 | "conc" -> M_conc.handle cmd args
+                | "derive" -> M_derive.handle cmd args
                 | _ -> failwith ("unknown module " ^ m))
              | _ -> failwith "bad line"
            with
